@@ -44,9 +44,81 @@ def histories(R, n):
             h += ["bounds tool-power 100 1000", R.rng.choice(["toolon clockwise 500", "poweron dynamic 100", "toolon counter 1000"])]
         if R.rng.random() < 0.5:
             h.append(R.rng.choice(["coolon mist", "coolon flood"]))
-        h.append(R.rng.choice(SHUT))
+        shut = R.rng.choice(SHUT)
+        if shut.startswith("ehalt") and R.rng.random() < 0.4:
+            shut += " " + str(R.rng.choice([60, 250, 400, 2000]))    # length of the operator message
+        h.append(shut)
         hs.append(h)
     return hs
+
+
+def fault_cases(R, n):
+    """oracle-only: a writer fails once, at the k-th statement of a first emergency_halt(); the caller catches the
+    device error and calls emergency_halt() again - which must do its whole job."""
+    from gscrib import GCodeBuilder
+    from gscrib.excepts import DeviceError
+    from gscrib.writers import BaseWriter
+    from .builder_impl import canon_stmt
+
+    for _ in range(n):
+        r = R.rng
+        k, reset1, reset2 = r.randint(1, 4), r.random() < 0.5, r.random() < 0.5
+
+        class Flaky(BaseWriter):
+            def __init__(self):
+                self.lines, self.count, self.armed = [], 0, False
+
+            def connect(self):
+                return self
+
+            def disconnect(self, wait=True):
+                pass
+
+            def flush(self):
+                pass
+
+            def write(self, b):
+                if self.armed:
+                    self.count += 1
+                    if self.count == k:
+                        self.armed = False
+                        raise DeviceError("link glitch injected by the harness")
+                self.lines.append(bytes(b).decode("utf-8"))
+
+        g = GCodeBuilder(output=None, print_lines=False, line_endings="\n")
+        w = Flaky()
+        g.add_writer(w)
+        prep = r.choice([["tool_on"], ["power_on"], ["coolant_on"], ["tool_on", "coolant_on"], []])
+        for p_ in prep:
+            {"tool_on": lambda: g.tool_on("clockwise", 1000), "power_on": lambda: g.power_on("dynamic", 40),
+             "coolant_on": lambda: g.coolant_on("flood")}[p_]()
+        w.armed = True
+        first = "ok"
+        try:
+            g.emergency_halt("first attempt", reset1)
+        except DeviceError:
+            first = "DeviceError"
+        resume = r.random() < 0.5
+        if resume:
+            try:
+                g.coolant_on("mist")
+            except Exception:  # noqa
+                pass
+        n0 = len(w.lines)
+        case = {"prepare": prep, "fault_at_statement": k, "first": first, "resumed_coolant": resume, "reset": [reset1, reset2]}
+        R.evaluations += 1
+        R.count("fault-injection")
+        try:
+            g.emergency_halt("second attempt", reset2)
+        except Exception as e:  # noqa
+            R.fail(case, f"second emergency_halt() raised {type(e).__name__}", tag="shutdown-rejected")
+            continue
+        got = ";".join(canon_stmt(l) for l in w.lines[n0:])
+        want = EXPECT["ehalt 1" if reset2 else "ehalt 0"]
+        if got != want:
+            R.fail(case, f"second emergency_halt() wrote {got or 'nothing'}, expected {want}", tag="shutdown-output")
+        elif g.state.is_tool_active or g.state.is_coolant_active:
+            R.fail(case, "tool or coolant still reported active after the second emergency_halt()", tag="still-active")
 
 
 def run(R: core.Run):
@@ -61,6 +133,7 @@ def run(R: core.Run):
     corpus = [["bounds tool-power 100 1000", "toolon clockwise 500", s] for s in SHUT]
     bc.correspond(R, corpus, KEYS, True, "corpus", oracle, nt)
     bc.correspond(R, histories(R, R.n(1500, 20000)), KEYS, True, "random", oracle, nt)
+    fault_cases(R, R.n(60, 1000))
     if R.broken:
         R.search_batches += 1
         for h in histories(R, R.n(1500, 5000)):
